@@ -258,12 +258,49 @@ def integrity(ctx, rels):
                 elif isinstance(n, ast.ClassDef) and prefix == '':
                     if n.decorator_list or n.keywords:
                         bad.append('line %d: class %s has decorators/metaclass keywords' % (n.lineno, n.name))
+        # class-level mutable containers that methods mutate in place through self without rebinding them per
+        # instance in __init__: the state is shared by every object of the class (and by later objects)
+        MUT = {'append', 'extend', 'insert', 'pop', 'remove', 'clear', 'update', 'setdefault', 'add', 'discard', 'sort', 'reverse', 'popitem'}
+        for c in m.tree.body:
+            if not isinstance(c, ast.ClassDef):
+                continue
+            shared = {}
+            for n in c.body:
+                if isinstance(n, ast.Assign) and len(n.targets) == 1 and isinstance(n.targets[0], ast.Name) \
+                        and not isinstance(n.value, (ast.Constant, ast.Tuple, ast.Lambda, ast.Name, ast.Attribute)):
+                    shared[n.targets[0].id] = n.lineno
+            if not shared:
+                continue
+            rebound = set()
+            for n in c.body:
+                if isinstance(n, ast.FunctionDef) and n.name == '__init__':
+                    for st in n.body:      # unconditional statements of the constructor only
+                        if isinstance(st, ast.Assign):
+                            for t in st.targets:
+                                for e in (t.elts if isinstance(t, (ast.Tuple, ast.List)) else [t]):
+                                    if isinstance(e, ast.Attribute) and isinstance(e.value, ast.Name) and e.value.id == 'self':
+                                        rebound.add(e.attr)
+            for n in c.body:
+                if not isinstance(n, ast.FunctionDef):
+                    continue
+                for w in ast.walk(n):
+                    hit = None
+                    if isinstance(w, ast.Subscript) and isinstance(w.ctx, (ast.Store, ast.Del)):
+                        hit = w.value
+                    elif isinstance(w, ast.Call) and isinstance(w.func, ast.Attribute) and w.func.attr in MUT:
+                        hit = w.func.value
+                    while isinstance(hit, ast.Subscript):
+                        hit = hit.value
+                    if isinstance(hit, ast.Attribute) and isinstance(hit.value, ast.Name) and hit.value.id == 'self' \
+                            and hit.attr in shared and hit.attr not in rebound:
+                        bad.append('line %d: %s.%s mutates the class-level container %s (line %d) that __init__ never rebinds: '
+                                   'all instances share it' % (w.lineno, c.name, n.name, hit.attr, shared[hit.attr]))
         ctx.check('%s definitions and imports' % rel, not bad, '; '.join(bad[:6]), rel)
 
 
 # rule sets that decide the building blocks a property rests on (explicit, per property; transitive)
 DEPENDS = {
-    'C01': ['C09', 'C07', 'C08'], 'C02': ['C07', 'C08', 'C16'], 'C03': ['C08'], 'C04': ['C07', 'C08'],
+    'C01': ['C09', 'C07', 'C08'], 'C02': ['C07', 'C08', 'C16'], 'C03': ['C08', 'C07', 'C16'], 'C04': ['C07', 'C08'],
     'C05': ['C09', 'C07', 'C08'], 'C06': ['C16', 'C07', 'C08'], 'C07': ['C08'], 'C08': ['C07'], 'C09': ['C07', 'C08'],
     'C10': [], 'C11': ['C09', 'C16', 'C01'], 'C12': ['C02', 'C07', 'C08'], 'C13': ['C01', 'C11'],
     'C14': ['C09', 'C01', 'C11'], 'C15': ['C07', 'C08'], 'C16': ['C07', 'C08'], 'C17': ['C16', 'C09'],
